@@ -24,6 +24,7 @@ const (
 	foLost
 	foCancelled
 	foDeadline
+	foSlow // does not answer: the call ends, with the context's error, when the caller's context does
 )
 
 var errFakeLost = errors.New("verif: connection lost")
@@ -45,6 +46,8 @@ type fakeScenario struct {
 	gatesByDial map[int]chan struct{}
 	// closing a broken client takes this long (a TLS/kcp close, a lock held elsewhere)
 	slowClose time.Duration
+	// a call abandoned because its context ended takes this long to wind up (a PostCall plugin, say)
+	slowWindUp time.Duration
 }
 
 var curScenario *fakeScenario
@@ -121,7 +124,7 @@ func init() {
 	client.RegisterCacheClientBuilder("fake", fakeBuilder{})
 }
 
-func (f *fakeClient) next() (fakeOutcome, int) {
+func (f *fakeClient) next(ctx context.Context) (fakeOutcome, int) {
 	sc := f.sc
 	sc.mu.Lock()
 	idx := len(sc.deliveries)
@@ -150,6 +153,12 @@ func (f *fakeClient) next() (fakeOutcome, int) {
 	if gate != nil {
 		<-gate
 	}
+	if o == foSlow {
+		<-ctx.Done()
+		if sc.slowWindUp > 0 {
+			time.Sleep(sc.slowWindUp)
+		}
+	}
 	if o == foLost {
 		f.mu.Lock()
 		f.dead = true
@@ -166,7 +175,7 @@ func outcomeErr(o fakeOutcome) error {
 		return errFakeLost
 	case foCancelled:
 		return context.Canceled
-	case foDeadline:
+	case foDeadline, foSlow:
 		return context.DeadlineExceeded
 	}
 	return nil
@@ -179,7 +188,7 @@ type fakeReply struct {
 }
 
 func (f *fakeClient) Call(ctx context.Context, servicePath, serviceMethod string, args interface{}, reply interface{}) error {
-	o, idx := f.next()
+	o, idx := f.next(ctx)
 	if o == foOK && reply != nil {
 		if r, ok := reply.(*fakeReply); ok {
 			r.Delivery = idx
@@ -195,7 +204,7 @@ func (f *fakeClient) Go(ctx context.Context, servicePath, serviceMethod string, 
 		call.Done = make(chan *client.Call, 10)
 	}
 	go func() {
-		o, idx := f.next()
+		o, idx := f.next(ctx)
 		if o == foOK && reply != nil {
 			if r, ok := reply.(*fakeReply); ok {
 				r.Delivery = idx
@@ -211,7 +220,7 @@ func (f *fakeClient) Go(ctx context.Context, servicePath, serviceMethod string, 
 }
 
 func (f *fakeClient) SendRaw(ctx context.Context, r *protocol.Message) (map[string]string, []byte, error) {
-	o, idx := f.next()
+	o, idx := f.next(ctx)
 	if o == foOK {
 		return map[string]string{"addr": f.addr}, []byte{byte(idx)}, nil
 	}
